@@ -88,7 +88,7 @@ fn run_one(h: &History, st: &mut Stats) -> Result<(usize, usize), String> {
                 continue;
             }
             done += 1;
-            if let Some((res, cold)) = crate::exec::run_blind(h, i + 1, i % 2 == 0)? {
+            if let Some((res, cold)) = crate::exec::run_blind(h, i + 1, (i % 3) as u8)? {
                 st.evals(1);
                 st.label("blind-run-to-failing-call");
                 if !matches!(res.last(), Some(CallRes::Err(..))) {
